@@ -46,7 +46,12 @@ CERTS = fixtures.SERVER_CERTS + fixtures.CHAINS
 
 def configure_agreement(sim, conf, is_client):
     c = sim.ch.stream("c03")
-    conf.alpn_protocols = list(ALPNS[c.choose(len(ALPNS))])
+    if is_client:
+        # (a client may also offer no ALPN at all; a server with an ALPN list must then refuse)
+        i = c.choose(len(ALPNS) + 1)
+        conf.alpn_protocols = list(ALPNS[i]) if i < len(ALPNS) else None
+    else:
+        conf.alpn_protocols = list(ALPNS[c.choose(len(ALPNS))])
     if not is_client:
         cert, chain, key = fixtures.cert_chain(CERTS[c.choose(len(CERTS))])
         conf.certificate, conf.certificate_chain, conf.private_key = cert, chain, key
